@@ -187,6 +187,14 @@ func genC10Seq(r *vk.RNG, binary bool) []c10op {
 			ops = append(ops, c10op{Op: "language", Lang: vk.Pick(r, langs)})
 		case x < 89:
 			t := vk.Pick(r, c10Types[:4])
+			if r.Chance(1, 3) {
+				// several data types in one call (examples/db unlocks and relocks BIN|MENU|TEMPLATE in one go), whatever
+				// the lock state of each of them is
+				t |= vk.Pick(r, c10Types[:4])
+				if r.Bool() {
+					t |= vk.Pick(r, c10Types[:4])
+				}
+			}
 			if r.Chance(1, 12) {
 				t = 0
 			}
